@@ -1,6 +1,7 @@
 import PytypeModel.Proofs.PlanSched
 import PytypeModel.Proofs.PlanTotal
 import PytypeModel.Proofs.PlanNinja
+import PytypeModel.Proofs.PlanGraph
 
 /-! # C19 — the whole-project build plan orders every analysis after the stubs it reads
 
@@ -156,6 +157,46 @@ theorem plan_total (req : List Nat) (gs : Groups) (h : depsClosed gs = true) :
   obtain ⟨st, hst⟩ := setupBuild_total req gs h
   exact ⟨st.steps, by simp [plan, hst]⟩
 
+/-! ### the stage in front of the planner: `deps_from_import_graph` (model: `Plan/Graph.lean`)
+
+`WF` and `depsClosed` above are hypotheses about the planner's input.  They are what `deps_from_import_graph`
+establishes, for every import graph importlab can hand over (nodes in dependency order). -/
+
+/-- No source file of the import graph is lost or duplicated, whatever the graph looks like: the members of the source
+groups, in order, are exactly the sources of the graph's nodes, in order (type stubs are dropped; a node that mixes
+sources and a stub — an import cycle through a stub — keeps its sources). -/
+theorem graph_sources_total (nodes : List GNode) :
+    (depsFromGraph nodes).flatMap (·.1) = graphSources nodes := by
+  unfold depsFromGraph
+  rw [gfold_out_members]
+  simp [graphSources]
+
+/-- … hence the planner's well-formedness premise holds as soon as no file occurs twice in the graph. -/
+theorem graph_wf (nodes : List GNode) (h : ((graphSources nodes).map (·.id)).Nodup) : WF (depsFromGraph nodes) := by
+  unfold WF
+  rw [graph_sources_total]
+  exact h
+
+/-- When the node list is in dependency order the result is in dependency order: every dep of a group — direct, or
+inherited through type stubs — is a member of an earlier group. -/
+theorem graph_deps_closed (nodes : List GNode) (h : topo nodes = true) : depsClosed (depsFromGraph nodes) = true :=
+  (depsFromGraph_inv nodes h).closed
+
+/-- End to end: for every import graph in dependency order with distinct files, planning succeeds, and every requested
+source of the graph that is not a builtin/system module gets exactly one `check` statement — in particular none
+silently disappears from the plan. -/
+theorem graph_checked_once (req : List Nat) (nodes : List GNode) (ht : topo nodes = true)
+    (hn : ((graphSources nodes).map (·.id)).Nodup) :
+    ∃ p, plan req (depsFromGraph nodes) = .ok p ∧
+      ∀ m ∈ graphSources nodes, m.id ∈ req → m.isGen = false →
+        (p.filter fun s => decide (s.act = .check ∧ s.mod.id = m.id)).length = 1 := by
+  obtain ⟨p, hp⟩ := plan_total req _ (graph_deps_closed nodes ht)
+  refine ⟨p, hp, ?_⟩
+  intro m hm hreq hgen
+  rw [← graph_sources_total] at hm
+  obtain ⟨g, hg, hmg⟩ := List.mem_flatMap.1 hm
+  exact (checked_once req _ (graph_wf nodes hn) p hp).1 g hg m hmg hreq hgen
+
 /-! ### escaping -/
 
 /-- `escape_ninja_path` leaves no unescaped space, colon, `$` or newline — for every string. -/
@@ -301,6 +342,14 @@ example : Out.pyi mB true ∈ sC.reads ∧ Out.pyi mB true ∉ sC.deps := by dec
 example : plan [0] [([mA], [mC]), ([mC], [])] = .error .keyError := by decide
 /-- once every requested file has its statement the rest is skipped -/
 example : plan [4] demoGroups = .ok [{ sD with act := .check }] := by decide
+/-- the import graph behind a project whose module `mA` imports a third-party stub that imports `mA` back (one node
+with a source and a stub), with `mD` underneath and `mC` on top importing only the stub's node -/
+def demoNodes : List GNode :=
+  [⟨[.src mS], []⟩, ⟨[.src mD], [0]⟩, ⟨[.stub 7], [1]⟩, ⟨[.src mA, .stub 8, .src mB], [2, 0]⟩, ⟨[.src mC], [3]⟩]
+example : topo demoNodes = true := by decide
+example : ((graphSources demoNodes).map (·.id)).Nodup := by decide
+example : depsFromGraph demoNodes =
+    [([mS], []), ([mD], [mS]), ([mA, mB], [mS, mD]), ([mC], [mA, mB, mS, mD])] := by decide
 example : pathOK "a b:c$d/é".toList = true ∧ endsToken ": check".toList = true := by decide
 example : escape "a b:c$d".toList = "a$ b$:c$$d".toList := by decide
 
